@@ -577,7 +577,11 @@ def _numeric_probe(ob, seed, tries=4000, want=200):
     hits = 0
     # thresholds written in the code (numeric constants of the formulas): real variables are also sampled around them, so that a
     # case distinction at a magic number (`max(precision, 1e-6)`) is actually visited
-    consts = sorted({abs(float(n.a[0])) for n in collect(xs, lambda n: isinstance(n, T) and n.op == 'c') if n.a[0] != 0 and 1e-12 < abs(float(n.a[0])) < 1e12})[:40]
+    consts = set()
+    for cnode in collect(xs, lambda n: isinstance(n, B) and n.op == 'cmp'):
+        for side in cnode.a[1:]:
+            if isinstance(side, T) and side.op == 'c' and side.a[0] != 0 and 1e-12 < abs(float(side.a[0])) <= 1e4: consts.add(abs(float(side.a[0])))
+    consts = sorted(consts)[:40]          # only thresholds that a comparison is made against (never the numeric codes of names inside applications)
     # candidate values for the variables of the goal from z3 on the application-free hypotheses that share variables with the goal:
     # only a SEED for the sampler - a counterexample still has to satisfy every hypothesis numerically (checked below)
     seedv = {}
